@@ -451,11 +451,12 @@ const BUILTINS: &[(&str, usize)] = &[
     ("keys", 1), ("values", 1), ("get", 2), ("set", 3), ("sum", 1), ("avg", 1), ("to_int", 1), ("to_float", 1),
     ("starts_with", 2), ("ends_with", 2), ("substring", 2), ("substring", 3), ("type_of", 1), ("is_null", 1),
     ("is_int", 1), ("is_float", 1), ("is_string", 1), ("is_bool", 1), ("is_array", 1), ("is_map", 1), ("nosuchfn", 1),
+    ("log", 1), ("log10", 1), ("exp", 1), ("sin", 1), ("cos", 1), ("tan", 1),
 ];
 
 /// built-ins outside the Lean model: exercised for panics only
 const UNMODELLED: &[(&str, usize)] = &[
-    ("log", 1), ("log10", 1), ("exp", 1), ("sin", 1), ("cos", 1), ("tan", 1), ("sort", 1), ("to_string", 1),
+    ("sort", 1), ("to_string", 1),
     ("trim", 1), ("lower", 1), ("upper", 1), ("split", 2), ("join", 2), ("replace", 3),
 ];
 
@@ -548,7 +549,7 @@ fn targeted(rng: &mut Rng) -> Vec<Expr> {
         out.push(call("set", vec![id("a"), Expr::Int(a), Expr::Null]));
     }
     for f in float_table(true) {
-        for fun in ["floor", "ceil", "round", "to_int", "abs", "sqrt"] { out.push(call(fun, vec![Expr::Float(f)])); }
+        for fun in ["floor", "ceil", "round", "to_int", "abs", "sqrt", "log", "log10", "exp", "sin", "cos", "tan"] { out.push(call(fun, vec![Expr::Float(f)])); }
         out.push(Expr::Unary { op: UnaryOp::Neg, expr: bx(Expr::Float(f)) });
         out.push(Expr::Slice { expr: bx(id("a")), start: Some(bx(Expr::Float(f))), end: None });
         out.push(bin(BinOp::Mod, Expr::Float(f), Expr::Float(*rng.pick(&float_table(true)))));
